@@ -44,9 +44,12 @@ class AsyncResult(g_AsyncResult):
     total = [num_ars]
     results = [None] * num_ars
     def complete(_n, _ar):
+      if ret.ready():
+        # Already failed, a later failure must not replace the first one.
+        return
       if _ar.exception:
         ret.set_exception(_ar.exception)
-      elif not ret.ready():
+      else:
         total[0] -= 1
         results[_n] = _ar.value
         if total[0] == 0:
